@@ -307,7 +307,9 @@ let oracle_dev (dev : dev) (cfg : Model.cfg) (hooks : Model.hooks) (steps : Sexp
           if code <> 0 && code <> 4 then raise (Oof "disconnect code");
           s.disc <- Some code;
           if s.ver = 5 then (match prop_int "sei" dps with
-              | Some v -> if s.e = 0 && v <> 0 then raise (Oof "disconnect raises a zero session expiry"); s.dsei <- Some v
+              | Some v -> if s.e = 0 && v <> 0 then raise (Oof "disconnect raises a zero session expiry");
+                (* like the interval requested at CONNECT, the one given at DISCONNECT is min(requested, configured) *)
+                s.dsei <- Some (min v cfg_se)
               | None -> ())
         | [Sexp.A "publish"; _; _; _; t; _; _; Sexp.L (Sexp.A "props" :: pps)] ->
           let ts = str_of_atom (Sexp.atom t) in
